@@ -337,18 +337,22 @@ def correspondence(ctx):
         for kind in (1, 2, 3, 4):
             case = {'family': f'cheby{kind}', 'order': n, 'points': x.tolist()}
             ctx.case('textbook:cheby-trig', case, nontrivial=n >= 2)
-            out = getattr(p, f'cheby{kind}')(n, x)
+            out = _try(ctx, 'textbook:cheby-trig', case, lambda: getattr(p, f'cheby{kind}')(n, x))
+            if out is _FAILED:
+                continue
             if not close(out, cheb_trig(kind, n, x), 1e-8):
                 ctx.pred_fail('textbook:cheby-trig', case, f'cheby{kind}({n}, x) differs from its trigonometric definition')
         a, b = JAC_PARAMS[n % len(JAC_PARAMS)]
         case = {'family': 'jacobi', 'order': n, 'params': [a, b]}
         ctx.case('textbook:jacobi-at-one', case, nontrivial=n >= 2)
-        one = float(p.jacobi(n, a, b, np.float64(1.0)))
+        one = _try(ctx, 'textbook:jacobi-at-one', case, lambda: float(p.jacobi(n, a, b, np.float64(1.0))))
         want = float(np.prod([(kk + a + 1) / (kk + 1) for kk in range(n)]))
-        if not close(one, want):
+        if one is not _FAILED and not close(one, want):
             ctx.pred_fail('textbook:jacobi-at-one', case, f'P_n(1) = {one}, binomial(n+alpha, n) = {want}')
         ctx.case('textbook:jacobi-reflect', {**case, 'points': x.tolist()}, nontrivial=n >= 2)
-        if not close(p.jacobi(n, a, b, -x), (-1) ** n * p.jacobi(n, b, a, x)):
+        pair = _try(ctx, 'textbook:jacobi-reflect', {**case, 'points': x.tolist()},
+                    lambda: (p.jacobi(n, a, b, -x), (-1) ** n * p.jacobi(n, b, a, x)))
+        if pair is not _FAILED and not close(pair[0], pair[1]):
             ctx.pred_fail('textbook:jacobi-reflect', {**case, 'points': x.tolist()}, 'P_n^(a,b)(-x) != (-1)^n P_n^(b,a)(x)')
     # Zernike radial textbook sum + norm
     for (n, m) in zcases:
@@ -362,8 +366,8 @@ def correspondence(ctx):
         nrm = math.sqrt(2 * (n + 1) / (1 + (1 if m == 0 else 0)))
         case = {'family': 'zern', 'order': [n, m], 'points': r.tolist(), 't': t}
         ctx.case('textbook:zernike', case, nontrivial=n >= 2)
-        out = p.zernike_nm(n, m, r, np.full_like(r, t), norm=True)
-        if not close(out, rad * az * nrm):
+        out = _try(ctx, 'textbook:zernike', case, lambda: p.zernike_nm(n, m, r, np.full_like(r, t), norm=True))
+        if out is not _FAILED and not close(out, rad * az * nrm):
             ctx.pred_fail('textbook:zernike', case, f'zernike_nm({n},{m}) differs from norm * R_n^m(r) * cos/sin(m t)')
 
     # ---------------- 3. exact arithmetic: prysm on Fraction object arrays vs the Rat model
@@ -426,21 +430,42 @@ def correspondence(ctx):
         model = [C.w2f(s) for s in r.split()]
         if kind == 'abc':
             ctx.case('coeff:abc', {'n': n, 'alpha': a, 'beta': b}, nontrivial=True)
-            out = J.recurrence_abc(n, a, b)
-            if not close(out, model, 1e-12):
+            out = _try(ctx, 'coeff:abc', {'n': n, 'alpha': a, 'beta': b}, lambda: J.recurrence_abc(n, a, b), disagree=True)
+            if out is not _FAILED and not close(out, model, 1e-12):
                 ctx.disagree('coeff:abc', {'n': n, 'alpha': a, 'beta': b}, list(map(float, out)), model)
         else:
             ctx.case('coeff:qbfs-fgh', {'n': n}, nontrivial=n >= 2)
-            out = [float(Q.f_qbfs(n)), float(Q.g_qbfs(n)), float(Q.h_qbfs(n))]
-            if not close(out, model, 1e-12):
+            out = _try(ctx, 'coeff:qbfs-fgh', {'n': n}, lambda: [float(Q.f_qbfs(n)), float(Q.g_qbfs(n)), float(Q.h_qbfs(n))], disagree=True)
+            if out is not _FAILED and not close(out, model, 1e-12):
                 ctx.disagree('coeff:qbfs-fgh', {'n': n}, out, model)
 
     # ---------------- 5. orthogonality: TESTED numerically (Gauss quadrature exact in the degree), not proved
-    _orthogonality(ctx, p)
+    try:
+        _orthogonality(ctx, p)
+    except (ArithmeticError, ValueError, IndexError, TypeError, AttributeError) as ex:
+        ctx.pred_fail('ortho:raised', {'stage': 'orthogonality'}, f'an evaluator raised {type(ex).__name__}: {ex} inside its domain')
+
+
+_FAILED = object()
+
+
+def _try(ctx, item, case, fn, disagree=False):
+    """run an implementation call; an exception inside the domain is a failure of the property, never a tool error"""
+    try:
+        with np.errstate(all='ignore'):
+            return fn()
+    except Exception as ex:       # noqa
+        if disagree:
+            ctx.disagree(item, case, f'raised {type(ex).__name__}: {ex}', 'the model returns a value')
+        else:
+            ctx.pred_fail(item, case, f'raised {type(ex).__name__}: {ex}')
+        return _FAILED
 
 
 def _orthogonality(ctx, p):
+    import warnings
     from scipy import special as sp
+    warnings.filterwarnings('ignore', category=RuntimeWarning, module='scipy')
     N = ctx.scale(12, 26)
     nodes = N + 2
     # Jacobi family under (1-x)^a (1+x)^b, including Legendre and the four Chebyshev kinds
@@ -602,7 +627,10 @@ def search(ctx, hints):
             return {'item': 'textbook:hopkins', 'input': {'family': 'hopkins', 'order': [a, b, c], 'params': [0.75, 0.5], 'x': 0.625}, 'detail': d}
     # orthogonality (tested): run the Gram checks and report the first failing entry
     sub = C.Ctx('C07', 'quick', 0)
-    _orthogonality(sub, p)
+    try:
+        _orthogonality(sub, p)
+    except Exception as ex:       # noqa
+        return {'item': 'ortho:raised', 'input': {'family': 'ortho', 'which': 'ortho:raised', 'case': {}}, 'detail': f'raised {type(ex).__name__}: {ex}'}
     if sub.pred_failures:
         f = sub.pred_failures[0]
         return {'item': f['item'], 'input': {'family': 'ortho', 'which': f['item'], 'case': f['case']}, 'detail': f['detail']}
@@ -616,7 +644,11 @@ def replay(inp):
     print('replaying', inp['item'], c)
     if c.get('family') == 'ortho':
         sub = C.Ctx('C07', 'quick', 0)
-        _orthogonality(sub, p)
+        try:
+            _orthogonality(sub, p)
+        except Exception as ex:       # noqa
+            print('raised', type(ex).__name__, ex)
+            return True
         bad = [f for f in sub.pred_failures if f['item'] == c['which']]
         for f in bad[:3]:
             print(f['detail'])
